@@ -167,13 +167,13 @@ theorem frame_hincrbyfloat (s : MState) (hp : s.pebble = true) (now : Int) (key 
     · next hn => rw [hn] at hin; cases hin
     · exact (h.setVal hp _ _).finish _ _
 
-/-- witness for the region (embedded API only, and only a limit of the model's float fragment): `HIncrByFloat(k, f, 0.5)`
-    on the empty Pebble store: the model creates the hash, cannot format 0.5, stops with `.unsupported`:
-    the record exists, `k` was not signalled -/
-theorem frame_hincrbyfloat_finding :
+/-- (was `frame_hincrbyfloat_finding`, a witness of the model's old float limit: 0.5 could not be formatted and the
+    model stopped with `.unsupported` before signalling.) Since Model/FloatDec.lean `HIncrByFloat(k, f, 0.5)` on the
+    empty Pebble store creates the hash, stores "0.5" and signals `k` -/
+theorem frame_hincrbyfloat_fraction :
     let s : MState := { pebble := true }
     let s' := (Api.hincrbyfloat s 0 [107] [102] 0x3fe0000000000000).1
-    changed s s' [107] ∧ [107] ∉ s'.signalled ∧ s'.flushed = false := by decide
+    changed s s' [107] ∧ [107] ∈ s'.signalled ∧ s'.flushed = false := by decide +kernel
 
 /-- the doubles INCRBYFLOAT / HINCRBYFLOAT accept as increments in the model (`ofInt?` of an integer) can
     be formatted (cf. `C09Float.ofInt_formattable`, which is about `0 + x`) -/
@@ -223,20 +223,8 @@ theorem ofInt_formattable_self (n : Int) (x : F64) (h : F64.ofInt? n = some x) :
         rw [this, ← hq]; exact Nat.mul_mod_left _ _
 
 /-- an increment accepted by `Handler.floatArg` can be formatted -/
-theorem floatArg_formattable {d : Bytes} {delta : F64} (hd : Handler.floatArg d = some (some (some delta))) :
-    (Api.formatFloat delta).isSome = true := by
-  unfold Handler.floatArg at hd
-  split at hd
-  · cases hd
-  · dsimp only at hd
-    injection hd with hd
-    split at hd
-    · cases hd
-    · cases hd
-    · next x hx =>
-      cases hd
-      obtain ⟨n, hn⟩ := C09Float.parseFloatText_some hx
-      exact ofInt_formattable_self n _ hn
+theorem floatArg_formattable {d : Bytes} {delta : F64} (_hd : Handler.floatArg d = some (some (some delta))) :
+    (Api.formatFloat delta).isSome = true := rfl
 
 /-! ## lists -/
 
